@@ -76,4 +76,41 @@ def run(res, tier, seed):
                        "kinds, and every control transfer of 3 concrete executions per program checked on the "
                        "real graph; all stages diffed against the Lean model")
     first, corr = run_graph_property(res, tier, seed, "parse,steps,cfg,facts,lints", oracle)
+    # programs cut into include trees: control falls through the boundaries of included files exactly
+    # as in the pasted text, so the graph of the tree is the graph of the flat file, node for node
+    import random
+    from common import RVH_DEBUG, run_lines_isolated
+    from pipeline import pipe_req
+    from props.c15 import split_tree
+    from props.graphfacts import gen_programs
+    rng = random.Random(seed + 77)
+    trees = []
+    for s in gen_programs(rng, 25 if tier == "quick" else 400):
+        if ".include" in s:
+            continue
+        files, _ = split_tree(rng, s.rstrip("\n").split("\n"))
+        if len(files) >= 2:
+            fl = [("base.s", "\n".join(files["base.s"]) + "\n")] + \
+                 [(k, "\n".join(v) + "\n") for k, v in files.items() if k != "base.s"]
+            trees.append((s, fl))
+    out = run_lines_isolated(RVH_DEBUG, [r for s, fl in trees for r in (pipe_req("cfg", [("m.s", s)]), pipe_req("cfg", fl))],
+                             chunk=60)
+    shape = lambda blk: [(n["kind"], n.get("inst"), sorted(n["nexts"]), sorted(n["prevs"]), sorted(n["funcs"]))
+                         for n in interp.Prog([l for l in blk if l.startswith("CFG ")]).nodes if n]
+    for j, (s, fl) in enumerate(trees):
+        a, b = out[2 * j], out[2 * j + 1]
+        if any(l.startswith(("HANG", "CRASH", "CFGERR")) for l in a + b):
+            continue
+        # which return of a multi-return function becomes the exit is a hash-order choice (F-28): two
+        # runs of the same text can differ there, so such programs say nothing about the boundaries
+        if any("name=5f5f72657475726e5f5f/" in l for l in a + b):
+            continue
+        sa, sb = shape(a), shape(b)
+        if sa != sb and first is None:
+            k = next((i for i in range(min(len(sa), len(sb))) if sa[i] != sb[i]), min(len(sa), len(sb)))
+            first = {"what": f"the graph of the program cut into {len(fl)} included files differs from the graph of the "
+                             f"pasted file at node {k}: {sb[k] if k < len(sb) else None} vs {sa[k] if k < len(sa) else None}",
+                     "source": s, "files": fl,
+                     "replay_cmd": "echo '%s' | %s" % (pipe_req("cfg", fl), RVH_DEBUG)}
+    res.cov["input_distribution"] = dict(res.cov.get("input_distribution") or {}, include_trees=len(trees))
     conclude(res, "C03", first, corr, proof_ok, "no execution step without an edge found")
